@@ -837,6 +837,26 @@ Proof.
   unfold valid_at in Hv. rewrite (NV _ _ Hi1 Hi2) in Hv. discriminate.
 Qed.
 
+(* a finite contribution comes from a valid pixel of the map *)
+Lemma contributes_some_valid : forall nr nc d m (path : Z * Z -> Z -> Z -> Z -> Z * Z) r c dirs nb,
+  Forall2 (fun d0 o => contributes nr nc d m (path d0 r c) o) dirs nb -> finite nb <> [] ->
+  exists r' c', 0 <= r' < nr /\ 0 <= c' < nc /\ spec_valid (m r' c') = true.
+Proof.
+  intros nr nc d m path r c dirs nb F. induction F as [|d0 o dirs nb Hc F IH]; intro Hne.
+  - exfalso. apply Hne. reflexivity.
+  - destruct Hc as [(k & (Hk & Hin & Hv & _) & _) | (_ & ->)].
+    + specialize (Hin k ltac:(lia)). destruct Hin as [Hi1 Hi2].
+      exists (fst (path d0 r c k)), (snd (path d0 r c k)). split. exact Hi1. split. exact Hi2. exact Hv.
+    + apply IH. exact Hne.
+Qed.
+
+Lemma first_valid_valid : forall nr nc m path k, first_valid nr nc m path k ->
+  exists r' c', 0 <= r' < nr /\ 0 <= c' < nc /\ spec_valid (m r' c') = true.
+Proof.
+  intros nr nc m path k (Hk & Hin & Hv & _). specialize (Hin k ltac:(lia)). destruct Hin as [Hi1 Hi2].
+  exists (fst (path k)), (snd (path k)). split. exact Hi1. split. exact Hi2. exact Hv.
+Qed.
+
 Section McClauses.
   Variables nr nc off : Z.
   Variable disp : Z -> Z -> option Q.
@@ -927,6 +947,38 @@ Section McClauses.
       + rewrite Em in N8. congruence.
     - exists x. split. exact Ex. eapply median_bounds. exact Hmed.
       intros y Hy. eapply contributes_range; eassumption.
+    - rewrite Em' in N9. congruence.
+  Qed.
+
+  (* a pixel is filled only if the map holds a valid pixel *)
+  Lemma mc_pass1_valid_source : forall d1 m1, pass mc_occlusion_px nr nc disp mask d1 m1 ->
+    forall r c, 0 <= r < nr -> 0 <= c < nc -> spec_valid (m1 r c) = true ->
+    exists r' c', 0 <= r' < nr /\ 0 <= c' < nc /\ spec_valid (mask r' c') = true.
+  Proof.
+    intros d1 m1 P1 r c Hr Hc Hv. specialize (P1 r c Hr Hc).
+    destruct P1 as [[_ [_ Em]] | [_ [(k & Hf & _) | [(_ & k & Hf & _) | (_ & _ & [_ Em])]]]].
+    - exists r, c. rewrite <- Em. auto.
+    - exact (first_valid_valid _ _ _ _ _ Hf).
+    - exact (first_valid_valid _ _ _ _ _ Hf).
+    - exists r, c. rewrite <- Em. auto.
+  Qed.
+
+  Lemma mc_filled_needs_valid : forall r c, 0 <= r < nr -> 0 <= c < nc -> remarked r c = false ->
+    filled (mask r c) (mask' r c) ->
+    exists r' c', 0 <= r' < nr /\ 0 <= c' < nc /\ spec_valid (mask r' c') = true.
+  Proof.
+    intros r c Hr Hc Hrm [Ff Fn]. destruct S as (d1 & m1 & m2 & P1 & P2 & B).
+    pose proof (P1 r c Hr Hc) as Q1. specialize (P2 r c Hr Hc). specialize (B r c Hr Hc).
+    unfold remarked in Hrm. rewrite Hrm in B. rewrite B in Fn. apply flagged_false in Fn. destruct Fn as [N8 N9].
+    destruct P2 as [[E9 [Ed' Em']] | [E9 (nb & Fnb & [(Hne & _) | (_ & [_ Em'])])]].
+    - rewrite Em' in N8, N9.
+      destruct Q1 as [[E8 [_ Em]] | [E8 [(k & Hf & _) | [(_ & k & Hf & _) | (_ & _ & [_ Em])]]]].
+      + exfalso. rewrite Em in N9. unfold flagged in Ff. rewrite E8, N9 in Ff. discriminate.
+      + exact (first_valid_valid _ _ _ _ _ Hf).
+      + exact (first_valid_valid _ _ _ _ _ Hf).
+      + rewrite Em in N8. congruence.
+    - destruct (contributes_some_valid _ _ _ _ _ _ _ _ _ Fnb Hne) as (r1 & c1 & Hr1 & Hc1 & Hv1).
+      exact (mc_pass1_valid_source d1 m1 P1 r1 c1 Hr1 Hc1 Hv1).
     - rewrite Em' in N9. congruence.
   Qed.
 
@@ -1031,6 +1083,38 @@ Section SgmClauses.
       + exfalso. rewrite Em in N8, N9. unfold flagged in Ff. rewrite N8, N9 in Ff. discriminate.
     - exists x. split. exact Ex. eapply contributes_range. exact VR1. exact Fnb.
       apply second_lowest_in. exact Hsl.
+    - rewrite Em' in N8. congruence.
+  Qed.
+
+  Lemma sgm_pass1_valid_source : forall d1 m1, pass sgm_mismatch_px nr nc disp mask d1 m1 ->
+    forall r c, 0 <= r < nr -> 0 <= c < nc -> spec_valid (m1 r c) = true ->
+    exists r' c', 0 <= r' < nr /\ 0 <= c' < nc /\ spec_valid (mask r' c') = true.
+  Proof.
+    intros d1 m1 P1 r c Hr Hc Hv. specialize (P1 r c Hr Hc).
+    destruct P1 as [[_ [_ Em]] | [(_ & _ & _ & Hs) | (_ & _ & nb & Fnb & [(Hne & _) | (_ & [_ Em])])]].
+    - exists r, c. rewrite <- Em. auto.
+    - destruct (swapped_98_bits _ _ Hs) as [_ S8]. rewrite (flagged_invalid8 _ S8) in Hv. discriminate.
+    - exact (contributes_some_valid _ _ _ _ _ _ _ _ _ Fnb Hne).
+    - exists r, c. rewrite <- Em. auto.
+  Qed.
+
+  Lemma sgm_filled_needs_valid : forall r c, 0 <= r < nr -> 0 <= c < nc ->
+    filled (mask r c) (mask' r c) ->
+    exists r' c', 0 <= r' < nr /\ 0 <= c' < nc /\ spec_valid (mask r' c') = true.
+  Proof.
+    intros r c Hr Hc [Ff Fn]. destruct S as (d1 & m1 & P1 & P2).
+    pose proof (P1 r c Hr Hc) as Q1. specialize (P2 r c Hr Hc).
+    apply flagged_false in Fn. destruct Fn as [N8 N9].
+    destruct P2 as [[E8 [Ed' Em']] | [E8 (nb & Fnb & [(Hl & _) | (_ & [_ Em'])])]].
+    - rewrite Em' in N8, N9.
+      destruct Q1 as [[E9 [_ Em]] | [(_ & _ & _ & Hs) | (_ & _ & nb & Fnb & [(Hne & _) | (_ & [_ Em])])]].
+      + exfalso. rewrite Em in N8. unfold flagged in Ff. rewrite E9, N8 in Ff. discriminate.
+      + destruct (swapped_98_bits _ _ Hs). congruence.
+      + exact (contributes_some_valid _ _ _ _ _ _ _ _ _ Fnb Hne).
+      + exfalso. rewrite Em in N8, N9. unfold flagged in Ff. rewrite N8, N9 in Ff. discriminate.
+    - assert (Hne : finite nb <> []) by (intro X; rewrite X in Hl; cbn in Hl; lia).
+      destruct (contributes_some_valid _ _ _ _ _ _ _ _ _ Fnb Hne) as (r1 & c1 & Hr1 & Hc1 & Hv1).
+      exact (sgm_pass1_valid_source d1 m1 P1 r1 c1 Hr1 Hc1 Hv1).
     - rewrite Em' in N8. congruence.
   Qed.
 
@@ -1195,6 +1279,15 @@ Section OnModel.
     intros lo hi VR r c Hr Hc Hrm Hf. destruct m; cbn [remarked_by] in Hrm.
     - exact (mc_filled_range _ _ _ _ _ _ _ (interp_mc_meets_spec nr nc off disp mask) lo hi VR r c Hr Hc Hrm Hf).
     - exact (sgm_filled_range _ _ _ _ _ _ (interp_sgm_meets_spec nr nc off disp mask NB) lo hi VR r c Hr Hc Hf).
+  Qed.
+
+  Lemma interp_filled_needs_valid : forall r c, 0 <= r < nr -> 0 <= c < nc -> remarked_by m nr nc off r c = false ->
+    filled (mask r c) (mask' r c) ->
+    exists r' c', 0 <= r' < nr /\ 0 <= c' < nc /\ spec_valid (mask r' c') = true.
+  Proof.
+    intros r c Hr Hc Hrm Hf. destruct m; cbn [remarked_by] in Hrm.
+    - exact (mc_filled_needs_valid _ _ _ _ _ _ _ (interp_mc_meets_spec nr nc off disp mask) r c Hr Hc Hrm Hf).
+    - exact (sgm_filled_needs_valid _ _ _ _ _ _ (interp_sgm_meets_spec nr nc off disp mask NB) r c Hr Hc Hf).
   Qed.
 
   (* no valid pixel at all: no disparity changes, no flagged pixel loses its flag *)
